@@ -5,6 +5,7 @@ package main
 // listed in evidence.
 
 import (
+	"path/filepath"
 	"os"
 	"fmt"
 	"go/types"
@@ -214,7 +215,8 @@ var vrtExternals = map[string]externalFn{
 	},
 	"Settle": func(fr *frame, args []value) value {
 		if s := fr.i.sched; s != nil {
-			s.block(fr, "settle", func() bool { return !s.othersEnabled() })
+			me := s.cur
+			s.block(fr, "settle", func() bool { return !s.othersEnabled(me) })
 		}
 		return nil
 	},
@@ -242,12 +244,14 @@ var vrtExternals = map[string]externalFn{
 	"WriteFile": func(fr *frame, args []value) value {
 		path, ok := args[0].(string)
 		if !ok {
-			panic(pathEnd{stUnsupported, "vrt.WriteFile with a symbolic path"})
+			// a file with a symbolic name: only harness-served directory
+			// listings can see it
+			return nil
 		}
 		if fr.i.vfs == nil {
 			fr.i.vfs = map[string]value{}
 		}
-		fr.i.vfs[path] = args[1]
+		fr.i.vfs[filepath.Clean(path)] = args[1]
 		return nil
 	},
 	"Chdir":     func(fr *frame, args []value) value { fr.i.cwd, _ = args[0].(string); return nil },
@@ -791,6 +795,17 @@ var stdExternals = map[string]externalFn{
 	// vals.typeOf reads the type-descriptor word of an interface (unsafe); any
 	// injective numbering of dynamic types is an equivalent implementation.
 	"src.elv.sh/pkg/eval/vals.typeOf": extValsTypeOf,
+	// time.After: the timer may fire at any moment; modelled as a channel that
+	// is ready at once, so that a select between it and another channel takes
+	// either branch depending on the (explored) schedule.
+	"time.After": func(fr *frame, args []value) value {
+		tp := fr.i.prog.ImportedPackage("time")
+		if tp == nil {
+			panic(pathEnd{stUnsupported, "time package not loaded"})
+		}
+		tt := tp.Type("Time").Object().Type()
+		return &chanObj{cap: 1, buf: []value{zero(tt)}, elem: tt}
+	},
 	// eval.scanOptions fills an options struct through reflect (field
 	// addresses); done here on the static struct type, each field converted by
 	// the (intercepted) vals.ScanToGo.
